@@ -51,6 +51,8 @@ FORMS = {
     "sprintf1": "sprintf(t, v)",
     "sprintf2": "sprintf(t, v, w)",
     "sprintf3": "sprintf(t, v, w, x)",
+    "sprintf12": "sprintf(t, 'a0', 'a1', 'a2', 'a3', 'a4', 'a5', 'a6', "
+                 "'a7', 'a8', 'a9', 'a10', 'a11')",
 }
 _F = {}
 
@@ -374,6 +376,32 @@ def explore_interp(chunk):
     return agg
 
 
+def explore_sprintf_many(chunk):
+    """positions with two digits: {1} is not a prefix of {10}; every pair
+    of positions 0..11, plain and with a width"""
+    agg = core.Agg()
+    for i in range(12):
+        for j in range(12):
+            for fmt in (None, "5", "-5"):
+                def ph(k):
+                    return "{%d}" % k if fmt is None else "{%d#%s}" % (k, fmt)
+                tpl = ph(i) + "|" + ph(j) + "|" + ph(i)
+                parts = [sorted(apply_fmt("a%d" % k, fmt))[0]
+                         for k in (i, j, i)]
+                exp = "|".join(parts)
+                r = run("sprintf12", t=tpl)
+                agg.count("steps")
+                agg.cls(("sprintf12", fmt, r[0]))
+                if not (r[0] == "value" and core.strict_eq(
+                        core.from_value(r[1]), exp)):
+                    agg.violation(
+                        {"fn": "sprintf12", "fmt": str(fmt)},
+                        {"fn": "sprintf12", "args": {"t": tpl}, "exp": exp},
+                        exp, core.show_raw(r), size=len(tpl))
+    agg.count("cases")
+    return agg
+
+
 def run_s(tpl, v):
     return run("s", t=tpl, v=v)
 
@@ -437,6 +465,7 @@ def main(tier, seed):
         rjobs.append({"rows": [], "parts": [], "seps": seps,
                       "lists": lists})
     agg.merge(core.pmap(explore_replace, rjobs))
+    agg.merge(core.pmap(explore_sprintf_many, [{}]))
     agg.merge(core.pmap(explore_case, [
         {"chars": c} for c in core.chunked(case_characters(), core.NPROC)]))
     # chr/ord on boundary code points
